@@ -51,4 +51,14 @@ MUTANTS = [
     {"pid": "C32", "name": "valet-lets-parse-errors-escape", "edits": [(HS, "                except httping.HTTPException as ex:  # this may be superfluous", "                except KeyError as ex:  # this may be superfluous"), (HT, "        except HTTPException as ex:\n            self.errored = True\n            self.error = str(ex)\n\n        self.ended = True\n        self.started = False", "        except KeyError as ex:\n            self.errored = True\n            self.error = str(ex)\n\n        self.ended = True\n        self.started = False")]},
     {"pid": "C32", "name": "chunk-end-valueerror", "edits": [(HT, '            raise HTTPException("Chunk end error. Expected empty got "', '            raise ValueError("Chunk end error. Expected empty got "')]},
     {"pid": "C32", "name": "errored-request-served-anyway-and-kept", "edits": [(HS, "                    if requestant.errored:  # parse may swallow error but set .errored and .error\n                        sys.stderr.write(requestant.error)\n                        self.closeConnection(ca)\n                        continue", "                    if requestant.errored:  # parse may swallow error but set .errored and .error\n                        for xca in list(self.reqs.keys()):\n                            self.closeConnection(xca)\n                        continue")]},
+    # C30
+    {"pid": "C30", "name": "query-quote-instead-of-quote-plus", "edits": [(HT, '    qargParts = [u"{0}={1}".format(key, quote_plus(str(val)))', '    qargParts = [u"{0}={1}".format(key, quote(str(val), safe="&= "))')]},
+    {"pid": "C30", "name": "packheader-no-titlecase-drops-value-part", "edits": [(HT, "    value = b', '.join(values)\n    return (name + b': ' + value)", "    value = b', '.join(values)\n    return (name + b': ' + value.replace(b';', b','))")]},
+    {"pid": "C30", "name": "server-unquotes-query", "edits": [(HS, "        self.query = pathSplits.query  # WSGI spec leaves it quoted do not unquote", "        self.query = unquote(pathSplits.query)")]},
+    {"pid": "C30", "name": "httperror-length-chars-not-bytes", "edits": [(HS, "                    headers['content-length'] = str(len(msg))", "                    headers['content-length'] = str(len(msg.decode('iso-8859-1').encode('utf-8')))")]},
+    # C34
+    {"pid": "C34", "name": "redirect-allows-downgrade", "edits": [(HC, "                if self.requester.scheme == 'https' and scheme != 'https':", "                if False:")]},
+    {"pid": "C34", "name": "redirect-drops-query", "edits": [(HC, "            qargs, query = httping.updateQargsQuery(qargs, query)\n\n            self.transmit(method=method, path=path, qargs=qargs, fragment=fragment)", "            self.transmit(method=method, path=path, qargs=qargs, fragment=fragment)")]},
+    {"pid": "C34", "name": "redirects-not-cleared-or-carried", "edits": [(HC, "                            response['redirects'] = copy.copy(self.redirects)", "                            response['redirects'] = copy.copy(self.redirects[:1])")]},
+    {"pid": "C34", "name": "redirect-same-host-new-port-not-reconnected", "edits": [(HC, "            if ha != self.connector.ha or scheme != self.requester.scheme:", "            if ha[0] != self.connector.ha[0] or scheme != self.requester.scheme:")]},
 ]
